@@ -106,6 +106,15 @@ def run(ctx):
                 continue
             lines.append("(imtarget %d %s %s %s)" % (c["parity"], Q.qlist(ro["phases"]), Q.qlist(c["coef"]), qs(Fraction(1, 10 ** 10))))
             keep.append((c, ro, "cert"))
+            # the returned protocol object's own response method at -1, -0.6, 0.2, 1 against the target series
+            if ro.get("resp_im"):
+                cf = [float.fromhex(x) for x in c["coef"]]
+                for a, v in zip((-1.0, -0.6, 0.2, 1.0), ro["resp_im"]):
+                    t = math.acos(a)
+                    tgt = sum(cj * math.cos((2 * j + c["parity"]) * t) for j, cj in enumerate(cf))
+                    if abs(float.fromhex(v) - tgt) > 1e-9:
+                        ctx.fail("newton", c, "the returned protocol's gen_response_im(%r) = %r, the target series is %r there" % (a, float.fromhex(v), tgt))
+                        break
     mod = run_model(lines)
     terms = []
     for (c, ro, what), m in zip(keep, mod):
